@@ -594,6 +594,35 @@ def gen_modularity(ctx):
                 add(b, [rng.randrange(k) for _ in range(nr)], [rng.randrange(k) for _ in range(nc)],
                     weights=rng.choice(['degree', 'uniform']), res=rng.choice(RESOLUTIONS))
             ctx.count('mod:bipartite')
+    # rectangular matrices with custom node weights, negative labels on either side, duplicates and stored zeros
+    for _ in range(40 if quick else 300):
+        nr, nc = rng.randint(1, 4), rng.randint(1, 4)
+        if nr == nc:
+            nc += 1
+        es = graphs.random_edges(rng, nr, 0.7, m=nc) or [(0, 0)]
+        b = _csr_from(nr, es, [rng.choice([1, 2, 3, 0.5]) for _ in es], m=nc)
+        if rng.random() < 0.3:
+            # the same entries stored twice / an explicit zero appended (non-canonical CSR)
+            coo = b.tocoo()
+            rows = list(coo.row) + [coo.row[0]]
+            cols = list(coo.col) + [coo.col[0]]
+            vals = list(coo.data) + [rng.choice([0.0, 1.0])]
+            order = sorted(range(len(rows)), key=lambda k: rows[k])
+            indptr = [0] * (nr + 1)
+            for r in rows:
+                indptr[r + 1] += 1
+            for k in range(nr):
+                indptr[k + 1] += indptr[k]
+            b = sparse.csr_matrix((np.array([vals[k] for k in order]), np.array([cols[k] for k in order]),
+                                   np.array(indptr)), shape=(nr, nc))
+        k = rng.randint(1, 3)
+        lr = [rng.choice(list(range(k)) + [-1]) for _ in range(nr)]
+        lc = [rng.choice(list(range(k)) + [-1]) for _ in range(nc)]
+        wt = rng.choice(['degree', 'uniform', 'custom'])
+        if wt == 'custom':
+            wt = [rng.choice([0, 1, 2, 0.5]) for _ in range(nr + nc)]
+        add(b, lr, lc, weights=wt, res=rng.choice(RESOLUTIONS), dtype='float64')
+        ctx.count('mod:bipartite-custom-negative')
     # structured random graphs
     for name, n, es, w in graphs.suite(rng, 100 if quick else 600, 3, 12, weights=[1, 2, 3, 5, 0.5, 0.25]):
         a = _csr_from(n, es, w)
@@ -754,8 +783,9 @@ def _other_graph(rng):
 
 FIT_RES = [1, 0.5, 2, 1.5, 0.25, 3]
 TOLS = [1e-3, 0, 1e-2, 0.05, 1e-7]      # where float32 arithmetic is exact
-# elsewhere no zero / tiny tolerance: with tol_optimization = 0 float32 rounding can keep `optimize_core` moving
-# nodes in a cycle of spurious gains for ever (observed; termination is C17's subject, not C06's)
+# elsewhere no zero / tiny tolerance in the main streams: float32 rounding turns exact ties into gains of ~4e-8, and
+# with tol_aggregation = 0 `Leiden.fit` then repeats the same aggregation for ever (observed; termination is C17's
+# subject, not C06's).  Zero tolerances on inexact inputs have their own stream, judged when the fit returns.
 TOLS_INEXACT = [1e-3, 1e-2, 0.05, 1e-4]
 
 
@@ -771,7 +801,7 @@ def gen_fits(ctx):
         ex = exact_domain(a, kind, res, fb) if exact is None else exact
         dt = _pick_dtype(rng, sparse.csr_matrix(a).data) if dtype is None else dtype
         tol_o = rng.choice(TOLS if ex else TOLS_INEXACT) if tol_o is None else tol_o
-        tol_a = rng.choice(TOLS) if tol_a is None else tol_a
+        tol_a = rng.choice(TOLS if ex else TOLS_INEXACT) if tol_a is None else tol_a
         n_agg = rng.choice([-1, -1, -1, 1, 2]) if n_agg is None else n_agg
         if rng.random() < 0.2 and sparse.csr_matrix(a).nnz:
             a = graphs.unsorted_copy(sparse.csr_matrix(a), rng)      # CSR rows in any order
@@ -917,7 +947,8 @@ def gen_fits(ctx):
         a = _csr_from(n, es, w)
         if a.nnz == 0:
             continue
-        both(a, rng.choice(KINDS), rng.choice(FIT_RES), exact=False, tol_o=rng.choice([0, 0, 1e-7]), into=tol0)
+        both(a, rng.choice(KINDS), rng.choice(FIT_RES), exact=False, tol_o=rng.choice([0, 0, 1e-7, 1e-3]),
+             tol_a=rng.choice([0, 0, 1e-7]), into=tol0)
         ctx.count('fit:tol0-inexact')
     # mid-size graphs (hundreds of nodes): the float32 drift of the logged increases grows with the number of moves
     for _ in range(2 if quick else 12):
